@@ -49,7 +49,10 @@ struct Codec<MapType<Key, T, Compare, Allocator>,
       // of each string as we will be copying them directly to our queue buffer.
       for (auto const& elem : arg)
       {
-        total_size += Codec<std::pair<Key, T>>::compute_encoded_size(conditional_arg_size_cache, elem);
+        // encode key and value separately: elem is a std::pair<Key const, T>, passing it to
+        // Codec<std::pair<Key, T>> would copy construct a temporary pair (and allocate) on the hot path
+        total_size += Codec<Key>::compute_encoded_size(conditional_arg_size_cache, elem.first);
+        total_size += Codec<T>::compute_encoded_size(conditional_arg_size_cache, elem.second);
       }
     }
 
@@ -64,8 +67,8 @@ struct Codec<MapType<Key, T, Compare, Allocator>,
 
     for (auto const& elem : arg)
     {
-      Codec<std::pair<Key, T>>::encode(buffer, conditional_arg_size_cache,
-                                       conditional_arg_size_cache_index, elem);
+      Codec<Key>::encode(buffer, conditional_arg_size_cache, conditional_arg_size_cache_index, elem.first);
+      Codec<T>::encode(buffer, conditional_arg_size_cache, conditional_arg_size_cache_index, elem.second);
     }
   }
 
